@@ -16,7 +16,7 @@ INVARIANTS {inv}
 CHECK_DEADLOCK FALSE
 """
 INVS = "TypeOK FieldIdsUnique RowsMatchSchema"
-PROPS = "PROPERTIES NoFieldIdReuse EvolutionPreservesOthers"
+PROPS = "PROPERTIES NoFieldIdReuse EvolutionPreservesOthers"  # NoFieldIdReuse: the model's own (stronger) design; not demanded of the code
 
 
 def sql(e):
@@ -72,7 +72,7 @@ def run(prop, tier, replay):
     scenarios = [to_scenario(h, i + 1, bool(i % 2)) for i, h in enumerate(picked)]
     reports, scn_file, build_s = Q.run_scenarios(prop, "schema", scenarios, trace_module="Trace_SchemaEvo")
     return Q.finish(prop, tier, t0, out, mc, reports, scn_file, len(scenarios),
-                    {"EvolutionPreservesOthers", "AddedValuesExact", "DroppedDataNeverResurfaces", "FieldIdsUnique", "NoFieldIdReuse",
+                    {"EvolutionPreservesOthers", "AddedValuesExact", "DroppedDataNeverResurfaces", "FieldIdsUnique",
                      "RowsMatchSchema", "LatestUnreadable", "FailedHasNoEffect"},
                     ["columns are nullable int32; added columns come from SQL expressions (literal, NULL, col + 1, copy of a column); "
                      "batch / UDF / key-join variants of add_columns, casts and nullability changes are not covered",
